@@ -22,7 +22,7 @@ RULE = (
     "between the spec and classes rendered from the genrv template + the checked-in "
     "classes (sub-check 'generator'); sub-check 'after_use': the registered metadata is re-compared (fingerprint) after every fixture "
     "has been loaded/saved and after each Hypothesis-generated use of the library (load, catalogue-driven edits incl. MetaModule count/mapping "
-    "changes, save, reload). Every comparison / generated use is distinct; non-trivial = "
+    "changes, save, reload; byte-mutated files and files with surplus controller values loaded and re-saved). Every comparison / generated use is distinct; non-trivial = "
     "every comparison whose spec side is not an absent/None value"
 )
 ASSUMPTIONS = [
@@ -416,7 +416,47 @@ def run_after_use(ctx, desc):
         if len(repr(case)) < 900:
             ctx.sample({"sub": "after_use", "case": case})
 
-    run_property(ctx, c06.edit_case(focus=desc.get("focus")), body, desc["examples"], tag="after_use", bucket="after_use")
+    if not run_property(ctx, c06.edit_case(focus=desc.get("focus")), body, desc["examples"], tag="after_use", bucket="after_use"):
+        return
+
+    # files a newer writer could produce: byte mutants (C05's generator) and modules carrying more
+    # controller values than this version knows
+    from hypothesis import strategies as st
+
+    from checks import c05
+    from vlib import chunktools
+
+    def body2(case):
+        ctx.case()
+        data = c05.bytes_of_case(case["base"])
+        if case["surplus"]:
+            chunks = chunktools.parse(data)
+            out = []
+            for i, (cid, pl) in enumerate(chunks):
+                nxt = chunks[i + 1][0] if i + 1 < len(chunks) else None
+                out.append((cid, pl))
+                if cid == b"CVAL" and nxt != b"CVAL":
+                    for v in case["surplus"]:
+                        out.append((b"CVAL", struct.pack("<i", v)))
+                if cid == b"CMID" and False:
+                    pass
+            # keep CMID consistent with the longer CVAL list
+            out = [(cid, pl + b"\0\0\0\0\0\0\0\xff" * len(case["surplus"])) if cid == b"CMID" else (cid, pl) for cid, pl in out]
+            data = chunktools.build(out)
+        try:
+            o = c05.load(data)
+            y = o.read()
+            c05.load(y).read()
+        except Exception:  # noqa: BLE001  (unloadable mutants are outside every quantifier)
+            pass
+        compare("loading/saving a %s file with mutations %r and %d surplus controller values" % (case["base"]["src"], case["base"]["mutations"][:2], len(case["surplus"])))
+        ctx.label("after_foreign_file")
+        ctx.mark_nontrivial(case)
+
+    import struct
+
+    strat = st.fixed_dictionaries({"base": c05.mutant_case(), "surplus": st.lists(st.integers(-5, 70000), max_size=3)})
+    run_property(ctx, strat, body2, desc["examples"], tag="after_use_files", bucket="after_use")
 
 
 def run_shard(ctx, desc):
